@@ -132,6 +132,9 @@ def feature_walker_kind(prog, b, depth=0):
     return kind
 
 
+RANGE_ACCESSORS = ("to_range", "to_text_range", "to_error")
+
+
 class Reach:
     def __init__(self, prog):
         self.prog = prog
@@ -364,6 +367,10 @@ def rule_traverse(prog):
                     par = parents[i] if i >= 0 else None
                     if par is not None and par.get("k") == "Field":
                         fields_used.add(par["name"])
+                    elif par is not None and par.get("k") == "MethodCall" and par["m"] in RANGE_ACCESSORS and \
+                            any(x is n for x in hir.nodes(par["recv"])):
+                        # `self.to_range()` (where the diagnostic goes) reads the node's extent; it does not walk its children
+                        pass
                     else:
                         delegated = True
             if delegated:
